@@ -25,6 +25,10 @@ func init() {
 }
 
 func (c *BaseClient) initID() {
+	if id, ok := simInitID(); ok {
+		atomic.StoreUint32(&c.idLast, id)
+		return
+	}
 	atomic.StoreUint32(&c.idLast, uint32(rand.Int31n(0xFFFE))+1)
 }
 
